@@ -551,7 +551,17 @@ func (in *interpreter) concretizeValue(fr *frame, x value) value {
 }
 
 func ndYield(fr *frame, args []value) value {
-	fr.i.schedPoint(fr)
+	fr.i.yieldPoint(fr)
+	return nil
+}
+
+// ndSchedExploreFine(budget): like SchedExplore, and every synchronisation operation is a
+// pre-emption point as well.
+func ndSchedExploreFine(fr *frame, args []value) value {
+	s := fr.i.sched
+	s.explore = true
+	s.fine = true
+	s.budget = int(fr.concInt(args[0]))
 	return nil
 }
 
@@ -572,6 +582,23 @@ func ndRaceDetect(fr *frame, args []value) value {
 }
 
 func ndIsSymbolic(fr *frame, args []value) value { return true }
+
+// ndQuiesce parks the caller until every other goroutine has finished or is blocked for good.
+func ndQuiesce(fr *frame, args []value) value {
+	in := fr.i
+	in.park(fr, func() bool {
+		for _, g := range in.sched.gs {
+			if g == fr.g || g.done {
+				continue
+			}
+			if !g.blocked || g.ready() {
+				return false
+			}
+		}
+		return true
+	}, "nd.Quiesce")
+	return nil
+}
 
 func ndAnd(fr *frame, args []value) value { return fr.i.and(args[0], args[1]) }
 func ndOr(fr *frame, args []value) value  { return fr.i.or(args[0], args[1]) }
@@ -598,8 +625,8 @@ func init() {
 	for name, f := range map[string]externalFn{
 		"Byte": ndByte, "Uint16": ndUint16, "Uint32": ndUint32, "Uint64": ndUint64, "Bool": ndBool, "Int": ndInt,
 		"Float64": ndFloat64, "Bytes": ndBytes, "Choice": ndChoice, "Param": ndParam, "Assume": ndAssume, "Assert": ndAssert,
-		"Known": ndKnown, "Observe": ndObserve, "Yield": ndYield, "SchedExplore": ndSchedExplore,
-		"RaceDetect": ndRaceDetect, "Symbolic": ndIsSymbolic,
+		"Known": ndKnown, "Observe": ndObserve, "Yield": ndYield, "SchedExplore": ndSchedExplore, "SchedExploreFine": ndSchedExploreFine,
+		"RaceDetect": ndRaceDetect, "Symbolic": ndIsSymbolic, "Quiesce": ndQuiesce,
 		"And": ndAnd, "Or": ndOr, "Not": ndNot, "IteInt": ndIte, "IteU8": ndIte, "IteU32": ndIte, "IteBool": ndIte,
 	} {
 		externals[base+name] = f
@@ -635,6 +662,7 @@ func (in *interpreter) runPath(prefix []dec) (res PathResult) {
 	in.addrs = make(map[*value]uintptr)
 	in.nextAddr = 0
 	in.syncs = nil
+	in.timers = nil
 	in.solver.BeginPath()
 	defer func() {
 		if p := recover(); p != nil {
